@@ -122,12 +122,13 @@ TEXT = {
           "fused multiply-add/sub, shift by x^n, constants and integer evaluation denote the ring operations and the partial derivative "
           "denotes MvPolynomial.pderiv (C01_derivative) for ALL term lists; canonical term lists are a normal form - two canonical "
           "lists denoting the same polynomial are equal, over Z and every Z_m (C01_canonical_unique: the monomial order is a strict total "
-          "order, canonical monomials are determined by their exponent vectors, coefficients in the range have unique residues). Every "
+          "order, canonical monomials are determined by their exponent vectors, coefficients in the range have unique residues); evaluation at a rational point is the ring evaluation through Z -> Q "
+          "(C01_evalRat). Every "
           "result of the C library (multivariate and univariate types, all rings incl. composite and multi-limb moduli, all destination/"
           "alias patterns, in-place growth after cancellation) is compared with this reference on every run, and the C output itself is "
           "checked to be canonical (no zero/duplicate terms, residues in range, non-zero leading coefficient).",
   "design_ref": "5.1",
-  "note": "reference (not mirror) model: the recursive coefficient_t layout is not modelled, only its observable traversal; rational evaluation is executable and tied by correspondence but not proved",
+  "note": "reference (not mirror) model: the recursive coefficient_t layout is not modelled, only its observable traversal",
   "technique": "Lean 4 proved reference model (MvPolynomial denotation) + differential correspondence harness",
  },
  "C02": {
